@@ -489,6 +489,13 @@ func (group *Group) feedRtpPacket(pkt rtprtcp.RtpPacket) {
 	)
 
 	for s := range group.rtspSubSessionSet {
+		// a session that has not reached PLAY yet is written nothing (SubSession.WriteRtpPacket drops the packet): a key
+		// frame that passes by between its DESCRIBE and its PLAY must not be taken for delivered, otherwise the session
+		// starts in the middle of a GOP once it plays
+		if s.Stage.Load() != rtsp.SubSessionStageReadPlay {
+			continue
+		}
+
 		// session的 ShouldWaitVideoKeyFrame 为false，那么可能有两种情况：
 		// 1. 对输入流做智能检测时，判定为流内没有视频
 		// 2. 该输出流已经发送过了GOP起始数据
